@@ -715,26 +715,29 @@ Proof.
 Qed.
 
 (* ================================================================== Part 4: witnesses of the defects found (real files) *)
-(* Each witness is a source file and the file the pinned tree's pipeline wrote for it (copied from the run of
-   corpus/C09/*.json), judged by the runner's oracle; the "repaired" twin is the same written file with the one field the
-   proposed repair changes. *)
+(* Each witness is a source file (corpus/C09/*.json) with two written files, judged by the runner's oracle:
+   _OLD     the file the tree BEFORE the repair wrote (cdbdcdf for the two offsets, 24f5d51 for CircleSize), kept verbatim;
+   _current the file the repaired tree writes for the same source. *)
 From RV Require Import Corr.RunC09.
-Definition w_osu_sm_offset_pinned : c09case := (C09 true (1#1000000) 4 0 0%nat (SOsu [[L[111;115;117;32;102;105;108;101;32;102;111;114;109;97;116;32;118;49;52]];[];[L[91;71;101;110;101;114;97;108;93]];[L[65;117;100;105;111;70;105;108;101;110;97;109;101;58;32;97;117;100;105;111;46;109;112;51]];[L[80;114;101;118;105;101;119;84;105;109;101;58;32;49;50;51;52;53]];[L[77;111;100;101;58;32;51]];[L[91;77;101;116;97;100;97;116;97;93]];[L[84;105;116;108;101;58;65;108;112;104;97]];[L[84;105;116;108;101;85;110;105;99;111;100;101;58;67;97;109;101;108;108;105;97;32;102;101;97;116;32;78;97;110;97;104;105;114;97]];[L[65;114;116;105;115;116;58;65;108;112;104;97]];[L[67;114;101;97;116;111;114;58;109;97;112;112;101;114;95;48;49]];[L[86;101;114;115;105;111;110;58;109;97;112;112;101;114;95;48;49]];[L[91;68;105;102;102;105;99;117;108;116;121;93]];[L[67;105;114;99;108;101;83;105;122;101;58;52]];[L[79;118;101;114;97;108;108;68;105;102;102;105;99;117;108;116;121;58;56]];[L[91;69;118;101;110;116;115;93]];[L[47;47;66;97;99;107;103;114;111;117;110;100;32;97;110;100;32;86;105;100;101;111;32;101;118;101;110;116;115]];[L[48;44;48;44;34;98;32;103;46;106;112;103;34;44;48;44;48]];[L[91;84;105;109;105;110;103;80;111;105;110;116;115;93]];[L[53;48;48;44;53;48;48;44;52;44;48;44;48;44;56;51;44;49;44;48]];[L[91;72;105;116;79;98;106;101;99;116;115;93]];[L[52;52;56;44;49;57;50;44;53;48;48;44;49;44;48;44;48;58;48;58;48;58;48;58]];[L[54;52;44;49;57;50;44;49;48;48;48;44;49;50;56;44;48;44;50;48;48;48;58;48;58;48;58;48;58;48;58]];[L[52;52;56;44;49;57;50;44;50;53;48;48;44;49;44;48;44;48;58;48;58;48;58;48;58]]] [0;1;2;3;4;5;1;6;7;8;9;10;11;1;12;13;14;1;15;16;17;1;18;19;1;1;20;21;22;23]) FSM 0%nat (Some (TSM [[L[35;84;73;84;76;69;58;65;108;112;104;97;59]];[L[35;83;85;66;84;73;84;76;69;58;59]];[L[35;65;82;84;73;83;84;58;65;108;112;104;97;59]];[L[35;84;73;84;76;69;84;82;65;78;83;76;73;84;58;67;97;109;101;108;108;105;97;32;102;101;97;116;32;78;97;110;97;104;105;114;97;59]];[L[35;83;85;66;84;73;84;76;69;84;82;65;78;83;76;73;84;58;59]];[L[35;65;82;84;73;83;84;84;82;65;78;83;76;73;84;58;59]];[L[35;71;69;78;82;69;58;59]];[L[35;67;82;69;68;73;84;58;109;97;112;112;101;114;95;48;49;59]];[L[35;66;65;78;78;69;82;58;59]];[L[35;66;65;67;75;71;82;79;85;78;68;58;98;32;103;46;106;112;103;59]];[L[35;76;89;82;73;67;83;80;65;84;72;58;59]];[L[35;67;68;84;73;84;76;69;58;59]];[L[35;77;85;83;73;67;58;97;117;100;105;111;46;109;112;51;59]];[L[35;79;70;70;83;69;84;58;45;48;46;48;59]];[L[35;66;80;77;83;58;48;46;48;61;49;50;48;46;48;59]];[L[35;83;84;79;80;83;58;59]];[L[35;83;65;77;80;76;69;83;84;65;82;84;58;49;50;46;51;52;53;59]];[L[35;83;65;77;80;76;69;76;69;78;71;84;72;58;48;46;48;49;59]];[L[35;68;73;83;80;76;65;89;66;80;77;58;59]];[L[35;83;69;76;69;67;84;65;66;76;69;58;89;69;83;59]];[L[35;66;71;67;72;65;78;71;69;83;58;59]];[L[35;70;71;67;72;65;78;71;69;83;58;59]];[L[47;47;45;45;45;45;45;45;100;97;110;99;101;45;115;105;110;103;108;101;91;49;32;69;97;115;121;93;45;45;45;45;45;45]];[L[35;78;79;84;69;83;58]];[L[32;32;32;32;32;100;97;110;99;101;45;115;105;110;103;108;101;58]];[L[32;32;32;32;32;109;97;112;112;101;114;95;48;49;58]];[L[32;32;32;32;32;69;97;115;121;58]];[L[32;32;32;32;32;49;58]];[L[32;32;32;32;32;48;46;48;44;48;46;48;44;48;46;48;44;48;46;48;44;48;46;48;58]];[L[48;48;48;49]];[L[50;48;48;48]];[L[48;48;48;48]];[L[51;48;48;48]];[L[44]];[L[59]];[]] [0;1;2;3;4;5;6;7;8;9;10;11;12;13;14;15;16;17;18;19;20;21;22;23;24;25;26;27;28;29;30;31;32;33;29;31;31;31;34;35;35])))%Z.
-Definition w_osu_sm_offset_repaired : c09case := (C09 true (1#1000000) 4 0 0%nat (SOsu [[L[111;115;117;32;102;105;108;101;32;102;111;114;109;97;116;32;118;49;52]];[];[L[91;71;101;110;101;114;97;108;93]];[L[65;117;100;105;111;70;105;108;101;110;97;109;101;58;32;97;117;100;105;111;46;109;112;51]];[L[80;114;101;118;105;101;119;84;105;109;101;58;32;49;50;51;52;53]];[L[77;111;100;101;58;32;51]];[L[91;77;101;116;97;100;97;116;97;93]];[L[84;105;116;108;101;58;65;108;112;104;97]];[L[84;105;116;108;101;85;110;105;99;111;100;101;58;67;97;109;101;108;108;105;97;32;102;101;97;116;32;78;97;110;97;104;105;114;97]];[L[65;114;116;105;115;116;58;65;108;112;104;97]];[L[67;114;101;97;116;111;114;58;109;97;112;112;101;114;95;48;49]];[L[86;101;114;115;105;111;110;58;109;97;112;112;101;114;95;48;49]];[L[91;68;105;102;102;105;99;117;108;116;121;93]];[L[67;105;114;99;108;101;83;105;122;101;58;52]];[L[79;118;101;114;97;108;108;68;105;102;102;105;99;117;108;116;121;58;56]];[L[91;69;118;101;110;116;115;93]];[L[47;47;66;97;99;107;103;114;111;117;110;100;32;97;110;100;32;86;105;100;101;111;32;101;118;101;110;116;115]];[L[48;44;48;44;34;98;32;103;46;106;112;103;34;44;48;44;48]];[L[91;84;105;109;105;110;103;80;111;105;110;116;115;93]];[L[53;48;48;44;53;48;48;44;52;44;48;44;48;44;56;51;44;49;44;48]];[L[91;72;105;116;79;98;106;101;99;116;115;93]];[L[52;52;56;44;49;57;50;44;53;48;48;44;49;44;48;44;48;58;48;58;48;58;48;58]];[L[54;52;44;49;57;50;44;49;48;48;48;44;49;50;56;44;48;44;50;48;48;48;58;48;58;48;58;48;58;48;58]];[L[52;52;56;44;49;57;50;44;50;53;48;48;44;49;44;48;44;48;58;48;58;48;58;48;58]]] [0;1;2;3;4;5;1;6;7;8;9;10;11;1;12;13;14;1;15;16;17;1;18;19;1;1;20;21;22;23]) FSM 0%nat (Some (TSM [[L[35;84;73;84;76;69;58;65;108;112;104;97;59]];[L[35;83;85;66;84;73;84;76;69;58;59]];[L[35;65;82;84;73;83;84;58;65;108;112;104;97;59]];[L[35;84;73;84;76;69;84;82;65;78;83;76;73;84;58;67;97;109;101;108;108;105;97;32;102;101;97;116;32;78;97;110;97;104;105;114;97;59]];[L[35;83;85;66;84;73;84;76;69;84;82;65;78;83;76;73;84;58;59]];[L[35;65;82;84;73;83;84;84;82;65;78;83;76;73;84;58;59]];[L[35;71;69;78;82;69;58;59]];[L[35;67;82;69;68;73;84;58;109;97;112;112;101;114;95;48;49;59]];[L[35;66;65;78;78;69;82;58;59]];[L[35;66;65;67;75;71;82;79;85;78;68;58;98;32;103;46;106;112;103;59]];[L[35;76;89;82;73;67;83;80;65;84;72;58;59]];[L[35;67;68;84;73;84;76;69;58;59]];[L[35;77;85;83;73;67;58;97;117;100;105;111;46;109;112;51;59]];[L[35;79;70;70;83;69;84;58;45;48;46;53;59]];[L[35;66;80;77;83;58;48;46;48;61;49;50;48;46;48;59]];[L[35;83;84;79;80;83;58;59]];[L[35;83;65;77;80;76;69;83;84;65;82;84;58;49;50;46;51;52;53;59]];[L[35;83;65;77;80;76;69;76;69;78;71;84;72;58;48;46;48;49;59]];[L[35;68;73;83;80;76;65;89;66;80;77;58;59]];[L[35;83;69;76;69;67;84;65;66;76;69;58;89;69;83;59]];[L[35;66;71;67;72;65;78;71;69;83;58;59]];[L[35;70;71;67;72;65;78;71;69;83;58;59]];[L[47;47;45;45;45;45;45;45;100;97;110;99;101;45;115;105;110;103;108;101;91;49;32;69;97;115;121;93;45;45;45;45;45;45]];[L[35;78;79;84;69;83;58]];[L[32;32;32;32;32;100;97;110;99;101;45;115;105;110;103;108;101;58]];[L[32;32;32;32;32;109;97;112;112;101;114;95;48;49;58]];[L[32;32;32;32;32;69;97;115;121;58]];[L[32;32;32;32;32;49;58]];[L[32;32;32;32;32;48;46;48;44;48;46;48;44;48;46;48;44;48;46;48;44;48;46;48;58]];[L[48;48;48;49]];[L[50;48;48;48]];[L[48;48;48;48]];[L[51;48;48;48]];[L[44]];[L[59]];[]] [0;1;2;3;4;5;6;7;8;9;10;11;12;13;14;15;16;17;18;19;20;21;22;23;24;25;26;27;28;29;30;31;32;33;29;31;31;31;34;35;35])))%Z.
-Definition w_qua_sm_offset_pinned : c09case := (C09 true (1#1000000) 4 0 0%nat (SQua (ym [(101,(ys [97;117;100;105;111;46;109;112;51]));(111,(ys [75;101;121;115;52]));(112,(ys [31481]));(113,(ys [65;108;112;104;97]));(116,(ys [67;97;109;101;108;108;105;97;32;102;101;97;116;32;78;97;110;97;104;105;114;97]));(117,(ys [65;108;112;104;97]));(103,(ys []));(102,(yi 12345));(22,(yl [(ym [(1,(yi 500));(5,(yf (120#1)))])]));(23,(yl [(ym [(1,(yi 400));(6,(yf (3#2)))])]));(21,(yl [(ym [(1,(yi 500));(2,(yi 4));(4,(yl []))]);(ym [(1,(yi 1000));(2,(yi 1));(4,(yl []));(3,(yi 2000))]);(ym [(1,(yi 2500));(2,(yi 4));(4,(yl []))])]))])) FSM 0%nat (Some (TSM [[L[35;84;73;84;76;69;58;31481;59]];[L[35;83;85;66;84;73;84;76;69;58;59]];[L[35;65;82;84;73;83;84;58;65;108;112;104;97;59]];[L[35;84;73;84;76;69;84;82;65;78;83;76;73;84;58;31481;59]];[L[35;83;85;66;84;73;84;76;69;84;82;65;78;83;76;73;84;58;59]];[L[35;65;82;84;73;83;84;84;82;65;78;83;76;73;84;58;65;108;112;104;97;59]];[L[35;71;69;78;82;69;58;59]];[L[35;67;82;69;68;73;84;58;67;97;109;101;108;108;105;97;32;102;101;97;116;32;78;97;110;97;104;105;114;97;59]];[L[35;66;65;78;78;69;82;58;59]];[L[35;66;65;67;75;71;82;79;85;78;68;58;59]];[L[35;76;89;82;73;67;83;80;65;84;72;58;59]];[L[35;67;68;84;73;84;76;69;58;59]];[L[35;77;85;83;73;67;58;97;117;100;105;111;46;109;112;51;59]];[L[35;79;70;70;83;69;84;58;45;48;46;52;59]];[L[35;66;80;77;83;58;48;46;48;61;49;50;48;46;48;59]];[L[35;83;84;79;80;83;58;59]];[L[35;83;65;77;80;76;69;83;84;65;82;84;58;49;50;46;51;52;53;59]];[L[35;83;65;77;80;76;69;76;69;78;71;84;72;58;48;46;48;49;59]];[L[35;68;73;83;80;76;65;89;66;80;77;58;59]];[L[35;83;69;76;69;67;84;65;66;76;69;58;89;69;83;59]];[L[35;66;71;67;72;65;78;71;69;83;58;59]];[L[35;70;71;67;72;65;78;71;69;83;58;59]];[L[47;47;45;45;45;45;45;45;100;97;110;99;101;45;115;105;110;103;108;101;91;49;32;69;97;115;121;93;45;45;45;45;45;45]];[L[35;78;79;84;69;83;58]];[L[32;32;32;32;32;100;97;110;99;101;45;115;105;110;103;108;101;58]];[L[32;32;32;32;32;65;108;112;104;97;58]];[L[32;32;32;32;32;69;97;115;121;58]];[L[32;32;32;32;32;49;58]];[L[32;32;32;32;32;48;46;48;44;48;46;48;44;48;46;48;44;48;46;48;44;48;46;48;58]];[L[48;48;48;49]];[L[50;48;48;48]];[L[48;48;48;48]];[L[51;48;48;48]];[L[44]];[L[59]];[]] [0;1;2;3;4;5;6;7;8;9;10;11;12;13;14;15;16;17;18;19;20;21;22;23;24;25;26;27;28;29;30;31;32;33;29;31;31;31;34;35;35])))%Z.
-Definition w_qua_sm_offset_repaired : c09case := (C09 true (1#1000000) 4 0 0%nat (SQua (ym [(101,(ys [97;117;100;105;111;46;109;112;51]));(111,(ys [75;101;121;115;52]));(112,(ys [31481]));(113,(ys [65;108;112;104;97]));(116,(ys [67;97;109;101;108;108;105;97;32;102;101;97;116;32;78;97;110;97;104;105;114;97]));(117,(ys [65;108;112;104;97]));(103,(ys []));(102,(yi 12345));(22,(yl [(ym [(1,(yi 500));(5,(yf (120#1)))])]));(23,(yl [(ym [(1,(yi 400));(6,(yf (3#2)))])]));(21,(yl [(ym [(1,(yi 500));(2,(yi 4));(4,(yl []))]);(ym [(1,(yi 1000));(2,(yi 1));(4,(yl []));(3,(yi 2000))]);(ym [(1,(yi 2500));(2,(yi 4));(4,(yl []))])]))])) FSM 0%nat (Some (TSM [[L[35;84;73;84;76;69;58;31481;59]];[L[35;83;85;66;84;73;84;76;69;58;59]];[L[35;65;82;84;73;83;84;58;65;108;112;104;97;59]];[L[35;84;73;84;76;69;84;82;65;78;83;76;73;84;58;31481;59]];[L[35;83;85;66;84;73;84;76;69;84;82;65;78;83;76;73;84;58;59]];[L[35;65;82;84;73;83;84;84;82;65;78;83;76;73;84;58;65;108;112;104;97;59]];[L[35;71;69;78;82;69;58;59]];[L[35;67;82;69;68;73;84;58;67;97;109;101;108;108;105;97;32;102;101;97;116;32;78;97;110;97;104;105;114;97;59]];[L[35;66;65;78;78;69;82;58;59]];[L[35;66;65;67;75;71;82;79;85;78;68;58;59]];[L[35;76;89;82;73;67;83;80;65;84;72;58;59]];[L[35;67;68;84;73;84;76;69;58;59]];[L[35;77;85;83;73;67;58;97;117;100;105;111;46;109;112;51;59]];[L[35;79;70;70;83;69;84;58;45;48;46;53;59]];[L[35;66;80;77;83;58;48;46;48;61;49;50;48;46;48;59]];[L[35;83;84;79;80;83;58;59]];[L[35;83;65;77;80;76;69;83;84;65;82;84;58;49;50;46;51;52;53;59]];[L[35;83;65;77;80;76;69;76;69;78;71;84;72;58;48;46;48;49;59]];[L[35;68;73;83;80;76;65;89;66;80;77;58;59]];[L[35;83;69;76;69;67;84;65;66;76;69;58;89;69;83;59]];[L[35;66;71;67;72;65;78;71;69;83;58;59]];[L[35;70;71;67;72;65;78;71;69;83;58;59]];[L[47;47;45;45;45;45;45;45;100;97;110;99;101;45;115;105;110;103;108;101;91;49;32;69;97;115;121;93;45;45;45;45;45;45]];[L[35;78;79;84;69;83;58]];[L[32;32;32;32;32;100;97;110;99;101;45;115;105;110;103;108;101;58]];[L[32;32;32;32;32;65;108;112;104;97;58]];[L[32;32;32;32;32;69;97;115;121;58]];[L[32;32;32;32;32;49;58]];[L[32;32;32;32;32;48;46;48;44;48;46;48;44;48;46;48;44;48;46;48;44;48;46;48;58]];[L[48;48;48;49]];[L[50;48;48;48]];[L[48;48;48;48]];[L[51;48;48;48]];[L[44]];[L[59]];[]] [0;1;2;3;4;5;6;7;8;9;10;11;12;13;14;15;16;17;18;19;20;21;22;23;24;25;26;27;28;29;30;31;32;33;29;31;31;31;34;35;35])))%Z.
-Definition w_sm_osu_cs_pinned : c09case := (C09 true (1#1000000) 7 0 0%nat (SSM [[L[35;67;82;69;68;73;84;58;109;97;112;112;101;114;95;48;49;59]];[L[35;66;65;67;75;71;82;79;85;78;68;58;73;110;115;97;110;101;32;55;75;59]];[L[35;79;70;70;83;69;84;58;48;59]];[L[35;66;80;77;83;58;48;46;48;48;48;61;49;50;48;46;48;48;48;59]];[L[35;83;84;79;80;83;58;59]];[L[35;83;65;77;80;76;69;83;84;65;82;84;58;49;50;46;53;59]];[L[35;83;69;76;69;67;84;65;66;76;69;58;89;69;83;59]];[L[47;47];R 45 15;L[32;107;98;55;45;115;105;110;103;108;101;32;45;32];R 45 16];[L[35;78;79;84;69;83;58]];[L[32;32;32;32;32;107;98;55;45;115;105;110;103;108;101;58]];[L[32;32;32;32;32;100;101;115;99;58]];[L[32;32;32;32;32;67;104;97;108;108;101;110;103;101;58]];[L[32;32;32;32;32;49;58]];[L[32;32;32;32;32;48;46;53;44;48;46;53;44;48;46;53;44;48;46;53;44;48;46;53;58]];[L[48;48;48;48;48;48;49]];[L[50;48;48;48;48;48;48]];[L[48;48;48;48;48;48;48]];[L[51;48;48;48;48;48;48]];[L[44]];[L[59]];[]] [0;1;2;3;4;5;6;7;8;9;10;11;12;13;14;15;16;17;18;14;16;16;16;19;20]) FOsu 0%nat (Some (TOsu [[L[111;115;117;32;102;105;108;101;32;102;111;114;109;97;116;32;118;49;52]];[];[L[91;71;101;110;101;114;97;108;93]];[L[65;117;100;105;111;70;105;108;101;110;97;109;101;58;32]];[L[65;117;100;105;111;76;101;97;100;73;110;58;32;48]];[L[80;114;101;118;105;101;119;84;105;109;101;58;32;49;50;53;48;48]];[L[67;111;117;110;116;100;111;119;110;58;32;48]];[L[83;97;109;112;108;101;83;101;116;58;32;78;111;110;101]];[L[83;116;97;99;107;76;101;110;105;101;110;99;121;58;32;48;46;55]];[L[77;111;100;101;58;32;51]];[L[76;101;116;116;101;114;98;111;120;73;110;66;114;101;97;107;115;58;32;48]];[L[83;112;101;99;105;97;108;83;116;121;108;101;58;32;48]];[L[87;105;100;101;115;99;114;101;101;110;83;116;111;114;121;98;111;97;114;100;58;32;49]];[L[91;69;100;105;116;111;114;93]];[L[68;105;115;116;97;110;99;101;83;112;97;99;105;110;103;58;32;52]];[L[66;101;97;116;68;105;118;105;115;111;114;58;32;52]];[L[71;114;105;100;83;105;122;101;58;32;56]];[L[84;105;109;101;108;105;110;101;90;111;111;109;58;32;48;46;51]];[L[91;77;101;116;97;100;97;116;97;93]];[L[84;105;116;108;101;58]];[L[84;105;116;108;101;85;110;105;99;111;100;101;58]];[L[65;114;116;105;115;116;58]];[L[65;114;116;105;115;116;85;110;105;99;111;100;101;58]];[L[67;114;101;97;116;111;114;58;109;97;112;112;101;114;95;48;49]];[L[86;101;114;115;105;111;110;58;67;104;97;108;108;101;110;103;101;32;49]];[L[83;111;117;114;99;101;58]];[L[84;97;103;115;58]];[L[66;101;97;116;109;97;112;73;68;58;48]];[L[66;101;97;116;109;97;112;83;101;116;73;68;58;45;49]];[L[91;68;105;102;102;105;99;117;108;116;121;93]];[L[72;80;68;114;97;105;110;82;97;116;101;58;53]];[L[67;105;114;99;108;101;83;105;122;101;58;52]];[L[79;118;101;114;97;108;108;68;105;102;102;105;99;117;108;116;121;58;53]];[L[65;112;112;114;111;97;99;104;82;97;116;101;58;53]];[L[83;108;105;100;101;114;77;117;108;116;105;112;108;105;101;114;58;49;46;52]];[L[83;108;105;100;101;114;84;105;99;107;82;97;116;101;58;49]];[L[91;69;118;101;110;116;115;93]];[L[47;47;66;97;99;107;103;114;111;117;110;100;32;97;110;100;32;86;105;100;101;111;32;101;118;101;110;116;115]];[L[48;44;48;44;34;73;110;115;97;110;101;32;55;75;34;44;48;44;48]];[L[47;47;66;114;101;97;107;32;80;101;114;105;111;100;115]];[L[47;47;83;116;111;114;121;98;111;97;114;100;32;76;97;121;101;114;32;48;32;40;66;97;99;107;103;114;111;117;110;100;41]];[L[47;47;83;116;111;114;121;98;111;97;114;100;32;76;97;121;101;114;32;49;32;40;70;97;105;108;41]];[L[47;47;83;116;111;114;121;98;111;97;114;100;32;76;97;121;101;114;32;50;32;40;80;97;115;115;41]];[L[47;47;83;116;111;114;121;98;111;97;114;100;32;76;97;121;101;114;32;51;32;40;70;111;114;101;103;114;111;117;110;100;41]];[L[47;47;83;116;111;114;121;98;111;97;114;100;32;76;97;121;101;114;32;52;32;40;79;118;101;114;108;97;121;41]];[L[47;47;83;116;111;114;121;98;111;97;114;100;32;83;111;117;110;100;32;83;97;109;112;108;101;115]];[L[91;84;105;109;105;110;103;80;111;105;110;116;115;93]];[L[45;48;46;48;44;53;48;48;46;48;44;52;44;48;44;48;44;48;44;49;44;48]];[L[91;72;105;116;79;98;106;101;99;116;115;93]];[L[56;51;50;44;49;57;50;44;48;44;49;44;48;44;48;58;48;58;48;58;48;58]];[L[54;52;44;49;57;50;44;53;48;48;44;49;50;56;44;48;44;49;53;48;48;58;48;58;48;58;48;58;48;58]];[L[56;51;50;44;49;57;50;44;50;48;48;48;44;49;44;48;44;48;58;48;58;48;58;48;58]]] [0;1;2;3;4;5;6;7;8;9;10;11;12;1;13;14;15;16;17;1;18;19;20;21;22;23;24;25;26;27;28;1;29;30;31;32;33;34;35;1;36;37;38;39;40;41;42;43;44;45;1;46;47;1;1;48;49;50;51])))%Z.
-Definition w_sm_osu_cs_repaired : c09case := (C09 true (1#1000000) 7 0 0%nat (SSM [[L[35;67;82;69;68;73;84;58;109;97;112;112;101;114;95;48;49;59]];[L[35;66;65;67;75;71;82;79;85;78;68;58;73;110;115;97;110;101;32;55;75;59]];[L[35;79;70;70;83;69;84;58;48;59]];[L[35;66;80;77;83;58;48;46;48;48;48;61;49;50;48;46;48;48;48;59]];[L[35;83;84;79;80;83;58;59]];[L[35;83;65;77;80;76;69;83;84;65;82;84;58;49;50;46;53;59]];[L[35;83;69;76;69;67;84;65;66;76;69;58;89;69;83;59]];[L[47;47];R 45 15;L[32;107;98;55;45;115;105;110;103;108;101;32;45;32];R 45 16];[L[35;78;79;84;69;83;58]];[L[32;32;32;32;32;107;98;55;45;115;105;110;103;108;101;58]];[L[32;32;32;32;32;100;101;115;99;58]];[L[32;32;32;32;32;67;104;97;108;108;101;110;103;101;58]];[L[32;32;32;32;32;49;58]];[L[32;32;32;32;32;48;46;53;44;48;46;53;44;48;46;53;44;48;46;53;44;48;46;53;58]];[L[48;48;48;48;48;48;49]];[L[50;48;48;48;48;48;48]];[L[48;48;48;48;48;48;48]];[L[51;48;48;48;48;48;48]];[L[44]];[L[59]];[]] [0;1;2;3;4;5;6;7;8;9;10;11;12;13;14;15;16;17;18;14;16;16;16;19;20]) FOsu 0%nat (Some (TOsu [[L[111;115;117;32;102;105;108;101;32;102;111;114;109;97;116;32;118;49;52]];[];[L[91;71;101;110;101;114;97;108;93]];[L[65;117;100;105;111;70;105;108;101;110;97;109;101;58;32]];[L[65;117;100;105;111;76;101;97;100;73;110;58;32;48]];[L[80;114;101;118;105;101;119;84;105;109;101;58;32;49;50;53;48;48]];[L[67;111;117;110;116;100;111;119;110;58;32;48]];[L[83;97;109;112;108;101;83;101;116;58;32;78;111;110;101]];[L[83;116;97;99;107;76;101;110;105;101;110;99;121;58;32;48;46;55]];[L[77;111;100;101;58;32;51]];[L[76;101;116;116;101;114;98;111;120;73;110;66;114;101;97;107;115;58;32;48]];[L[83;112;101;99;105;97;108;83;116;121;108;101;58;32;48]];[L[87;105;100;101;115;99;114;101;101;110;83;116;111;114;121;98;111;97;114;100;58;32;49]];[L[91;69;100;105;116;111;114;93]];[L[68;105;115;116;97;110;99;101;83;112;97;99;105;110;103;58;32;52]];[L[66;101;97;116;68;105;118;105;115;111;114;58;32;52]];[L[71;114;105;100;83;105;122;101;58;32;56]];[L[84;105;109;101;108;105;110;101;90;111;111;109;58;32;48;46;51]];[L[91;77;101;116;97;100;97;116;97;93]];[L[84;105;116;108;101;58]];[L[84;105;116;108;101;85;110;105;99;111;100;101;58]];[L[65;114;116;105;115;116;58]];[L[65;114;116;105;115;116;85;110;105;99;111;100;101;58]];[L[67;114;101;97;116;111;114;58;109;97;112;112;101;114;95;48;49]];[L[86;101;114;115;105;111;110;58;67;104;97;108;108;101;110;103;101;32;49]];[L[83;111;117;114;99;101;58]];[L[84;97;103;115;58]];[L[66;101;97;116;109;97;112;73;68;58;48]];[L[66;101;97;116;109;97;112;83;101;116;73;68;58;45;49]];[L[91;68;105;102;102;105;99;117;108;116;121;93]];[L[72;80;68;114;97;105;110;82;97;116;101;58;53]];[L[67;105;114;99;108;101;83;105;122;101;58;55]];[L[79;118;101;114;97;108;108;68;105;102;102;105;99;117;108;116;121;58;53]];[L[65;112;112;114;111;97;99;104;82;97;116;101;58;53]];[L[83;108;105;100;101;114;77;117;108;116;105;112;108;105;101;114;58;49;46;52]];[L[83;108;105;100;101;114;84;105;99;107;82;97;116;101;58;49]];[L[91;69;118;101;110;116;115;93]];[L[47;47;66;97;99;107;103;114;111;117;110;100;32;97;110;100;32;86;105;100;101;111;32;101;118;101;110;116;115]];[L[48;44;48;44;34;73;110;115;97;110;101;32;55;75;34;44;48;44;48]];[L[47;47;66;114;101;97;107;32;80;101;114;105;111;100;115]];[L[47;47;83;116;111;114;121;98;111;97;114;100;32;76;97;121;101;114;32;48;32;40;66;97;99;107;103;114;111;117;110;100;41]];[L[47;47;83;116;111;114;121;98;111;97;114;100;32;76;97;121;101;114;32;49;32;40;70;97;105;108;41]];[L[47;47;83;116;111;114;121;98;111;97;114;100;32;76;97;121;101;114;32;50;32;40;80;97;115;115;41]];[L[47;47;83;116;111;114;121;98;111;97;114;100;32;76;97;121;101;114;32;51;32;40;70;111;114;101;103;114;111;117;110;100;41]];[L[47;47;83;116;111;114;121;98;111;97;114;100;32;76;97;121;101;114;32;52;32;40;79;118;101;114;108;97;121;41]];[L[47;47;83;116;111;114;121;98;111;97;114;100;32;83;111;117;110;100;32;83;97;109;112;108;101;115]];[L[91;84;105;109;105;110;103;80;111;105;110;116;115;93]];[L[45;48;46;48;44;53;48;48;46;48;44;52;44;48;44;48;44;48;44;49;44;48]];[L[91;72;105;116;79;98;106;101;99;116;115;93]];[L[52;55;53;44;49;57;50;44;48;44;49;44;48;44;48;58;48;58;48;58;48;58]];[L[51;54;44;49;57;50;44;53;48;48;44;49;50;56;44;48;44;49;53;48;48;58;48;58;48;58;48;58;48;58]];[L[52;55;53;44;49;57;50;44;50;48;48;48;44;49;44;48;44;48;58;48;58;48;58;48;58]]] [0;1;2;3;4;5;6;7;8;9;10;11;12;1;13;14;15;16;17;1;18;19;20;21;22;23;24;25;26;27;28;1;29;30;31;32;33;34;35;1;36;37;38;39;40;41;42;43;44;45;1;46;47;1;1;48;49;50;51])))%Z.
+Definition w_osu_sm_offset_OLD : c09case := (C09 true (1#1000000) 4 0 0%nat (SOsu [[L[111;115;117;32;102;105;108;101;32;102;111;114;109;97;116;32;118;49;52]];[];[L[91;71;101;110;101;114;97;108;93]];[L[65;117;100;105;111;70;105;108;101;110;97;109;101;58;32;97;117;100;105;111;46;109;112;51]];[L[80;114;101;118;105;101;119;84;105;109;101;58;32;49;50;51;52;53]];[L[77;111;100;101;58;32;51]];[L[91;77;101;116;97;100;97;116;97;93]];[L[84;105;116;108;101;58;65;108;112;104;97]];[L[84;105;116;108;101;85;110;105;99;111;100;101;58;67;97;109;101;108;108;105;97;32;102;101;97;116;32;78;97;110;97;104;105;114;97]];[L[65;114;116;105;115;116;58;65;108;112;104;97]];[L[67;114;101;97;116;111;114;58;109;97;112;112;101;114;95;48;49]];[L[86;101;114;115;105;111;110;58;109;97;112;112;101;114;95;48;49]];[L[91;68;105;102;102;105;99;117;108;116;121;93]];[L[67;105;114;99;108;101;83;105;122;101;58;52]];[L[79;118;101;114;97;108;108;68;105;102;102;105;99;117;108;116;121;58;56]];[L[91;69;118;101;110;116;115;93]];[L[47;47;66;97;99;107;103;114;111;117;110;100;32;97;110;100;32;86;105;100;101;111;32;101;118;101;110;116;115]];[L[48;44;48;44;34;98;32;103;46;106;112;103;34;44;48;44;48]];[L[91;84;105;109;105;110;103;80;111;105;110;116;115;93]];[L[53;48;48;44;53;48;48;44;52;44;48;44;48;44;56;51;44;49;44;48]];[L[91;72;105;116;79;98;106;101;99;116;115;93]];[L[52;52;56;44;49;57;50;44;53;48;48;44;49;44;48;44;48;58;48;58;48;58;48;58]];[L[54;52;44;49;57;50;44;49;48;48;48;44;49;50;56;44;48;44;50;48;48;48;58;48;58;48;58;48;58;48;58]];[L[52;52;56;44;49;57;50;44;50;53;48;48;44;49;44;48;44;48;58;48;58;48;58;48;58]]] [0;1;2;3;4;5;1;6;7;8;9;10;11;1;12;13;14;1;15;16;17;1;18;19;1;1;20;21;22;23]) FSM 0%nat (Some (TSM [[L[35;84;73;84;76;69;58;65;108;112;104;97;59]];[L[35;83;85;66;84;73;84;76;69;58;59]];[L[35;65;82;84;73;83;84;58;65;108;112;104;97;59]];[L[35;84;73;84;76;69;84;82;65;78;83;76;73;84;58;67;97;109;101;108;108;105;97;32;102;101;97;116;32;78;97;110;97;104;105;114;97;59]];[L[35;83;85;66;84;73;84;76;69;84;82;65;78;83;76;73;84;58;59]];[L[35;65;82;84;73;83;84;84;82;65;78;83;76;73;84;58;59]];[L[35;71;69;78;82;69;58;59]];[L[35;67;82;69;68;73;84;58;109;97;112;112;101;114;95;48;49;59]];[L[35;66;65;78;78;69;82;58;59]];[L[35;66;65;67;75;71;82;79;85;78;68;58;98;32;103;46;106;112;103;59]];[L[35;76;89;82;73;67;83;80;65;84;72;58;59]];[L[35;67;68;84;73;84;76;69;58;59]];[L[35;77;85;83;73;67;58;97;117;100;105;111;46;109;112;51;59]];[L[35;79;70;70;83;69;84;58;45;48;46;48;59]];[L[35;66;80;77;83;58;48;46;48;61;49;50;48;46;48;59]];[L[35;83;84;79;80;83;58;59]];[L[35;83;65;77;80;76;69;83;84;65;82;84;58;49;50;46;51;52;53;59]];[L[35;83;65;77;80;76;69;76;69;78;71;84;72;58;48;46;48;49;59]];[L[35;68;73;83;80;76;65;89;66;80;77;58;59]];[L[35;83;69;76;69;67;84;65;66;76;69;58;89;69;83;59]];[L[35;66;71;67;72;65;78;71;69;83;58;59]];[L[35;70;71;67;72;65;78;71;69;83;58;59]];[L[47;47;45;45;45;45;45;45;100;97;110;99;101;45;115;105;110;103;108;101;91;49;32;69;97;115;121;93;45;45;45;45;45;45]];[L[35;78;79;84;69;83;58]];[L[32;32;32;32;32;100;97;110;99;101;45;115;105;110;103;108;101;58]];[L[32;32;32;32;32;109;97;112;112;101;114;95;48;49;58]];[L[32;32;32;32;32;69;97;115;121;58]];[L[32;32;32;32;32;49;58]];[L[32;32;32;32;32;48;46;48;44;48;46;48;44;48;46;48;44;48;46;48;44;48;46;48;58]];[L[48;48;48;49]];[L[50;48;48;48]];[L[48;48;48;48]];[L[51;48;48;48]];[L[44]];[L[59]];[]] [0;1;2;3;4;5;6;7;8;9;10;11;12;13;14;15;16;17;18;19;20;21;22;23;24;25;26;27;28;29;30;31;32;33;29;31;31;31;34;35;35])))%Z.
+Definition w_osu_sm_offset_current : c09case := (C09 true (1#1000000) 4 0 0%nat (SOsu [[L[111;115;117;32;102;105;108;101;32;102;111;114;109;97;116;32;118;49;52]];[];[L[91;71;101;110;101;114;97;108;93]];[L[65;117;100;105;111;70;105;108;101;110;97;109;101;58;32;97;117;100;105;111;46;109;112;51]];[L[80;114;101;118;105;101;119;84;105;109;101;58;32;49;50;51;52;53]];[L[77;111;100;101;58;32;51]];[L[91;77;101;116;97;100;97;116;97;93]];[L[84;105;116;108;101;58;65;108;112;104;97]];[L[84;105;116;108;101;85;110;105;99;111;100;101;58;67;97;109;101;108;108;105;97;32;102;101;97;116;32;78;97;110;97;104;105;114;97]];[L[65;114;116;105;115;116;58;65;108;112;104;97]];[L[67;114;101;97;116;111;114;58;109;97;112;112;101;114;95;48;49]];[L[86;101;114;115;105;111;110;58;109;97;112;112;101;114;95;48;49]];[L[91;68;105;102;102;105;99;117;108;116;121;93]];[L[67;105;114;99;108;101;83;105;122;101;58;52]];[L[79;118;101;114;97;108;108;68;105;102;102;105;99;117;108;116;121;58;56]];[L[91;69;118;101;110;116;115;93]];[L[47;47;66;97;99;107;103;114;111;117;110;100;32;97;110;100;32;86;105;100;101;111;32;101;118;101;110;116;115]];[L[48;44;48;44;34;98;32;103;46;106;112;103;34;44;48;44;48]];[L[91;84;105;109;105;110;103;80;111;105;110;116;115;93]];[L[53;48;48;44;53;48;48;44;52;44;48;44;48;44;56;51;44;49;44;48]];[L[91;72;105;116;79;98;106;101;99;116;115;93]];[L[52;52;56;44;49;57;50;44;53;48;48;44;49;44;48;44;48;58;48;58;48;58;48;58]];[L[54;52;44;49;57;50;44;49;48;48;48;44;49;50;56;44;48;44;50;48;48;48;58;48;58;48;58;48;58;48;58]];[L[52;52;56;44;49;57;50;44;50;53;48;48;44;49;44;48;44;48;58;48;58;48;58;48;58]]] [0;1;2;3;4;5;1;6;7;8;9;10;11;1;12;13;14;1;15;16;17;1;18;19;1;1;20;21;22;23]) FSM 0%nat (Some (TSM [[L[35;84;73;84;76;69;58;65;108;112;104;97;59]];[L[35;83;85;66;84;73;84;76;69;58;59]];[L[35;65;82;84;73;83;84;58;65;108;112;104;97;59]];[L[35;84;73;84;76;69;84;82;65;78;83;76;73;84;58;67;97;109;101;108;108;105;97;32;102;101;97;116;32;78;97;110;97;104;105;114;97;59]];[L[35;83;85;66;84;73;84;76;69;84;82;65;78;83;76;73;84;58;59]];[L[35;65;82;84;73;83;84;84;82;65;78;83;76;73;84;58;59]];[L[35;71;69;78;82;69;58;59]];[L[35;67;82;69;68;73;84;58;109;97;112;112;101;114;95;48;49;59]];[L[35;66;65;78;78;69;82;58;59]];[L[35;66;65;67;75;71;82;79;85;78;68;58;98;32;103;46;106;112;103;59]];[L[35;76;89;82;73;67;83;80;65;84;72;58;59]];[L[35;67;68;84;73;84;76;69;58;59]];[L[35;77;85;83;73;67;58;97;117;100;105;111;46;109;112;51;59]];[L[35;79;70;70;83;69;84;58;45;48;46;53;59]];[L[35;66;80;77;83;58;48;46;48;61;49;50;48;46;48;59]];[L[35;83;84;79;80;83;58;59]];[L[35;83;65;77;80;76;69;83;84;65;82;84;58;49;50;46;51;52;53;59]];[L[35;83;65;77;80;76;69;76;69;78;71;84;72;58;48;46;48;49;59]];[L[35;68;73;83;80;76;65;89;66;80;77;58;59]];[L[35;83;69;76;69;67;84;65;66;76;69;58;89;69;83;59]];[L[35;66;71;67;72;65;78;71;69;83;58;59]];[L[35;70;71;67;72;65;78;71;69;83;58;59]];[L[47;47;45;45;45;45;45;45;100;97;110;99;101;45;115;105;110;103;108;101;91;49;32;69;97;115;121;93;45;45;45;45;45;45]];[L[35;78;79;84;69;83;58]];[L[32;32;32;32;32;100;97;110;99;101;45;115;105;110;103;108;101;58]];[L[32;32;32;32;32;109;97;112;112;101;114;95;48;49;58]];[L[32;32;32;32;32;69;97;115;121;58]];[L[32;32;32;32;32;49;58]];[L[32;32;32;32;32;48;46;48;44;48;46;48;44;48;46;48;44;48;46;48;44;48;46;48;58]];[L[48;48;48;49]];[L[50;48;48;48]];[L[48;48;48;48]];[L[51;48;48;48]];[L[44]];[L[59]];[]] [0;1;2;3;4;5;6;7;8;9;10;11;12;13;14;15;16;17;18;19;20;21;22;23;24;25;26;27;28;29;30;31;32;33;29;31;31;31;34;35;35])))%Z.
+Definition w_qua_sm_offset_OLD : c09case := (C09 true (1#1000000) 4 0 0%nat (SQua (ym [(101,(ys [97;117;100;105;111;46;109;112;51]));(111,(ys [75;101;121;115;52]));(112,(ys [31481]));(113,(ys [65;108;112;104;97]));(116,(ys [67;97;109;101;108;108;105;97;32;102;101;97;116;32;78;97;110;97;104;105;114;97]));(117,(ys [65;108;112;104;97]));(103,(ys []));(102,(yi 12345));(22,(yl [(ym [(1,(yi 500));(5,(yf (120#1)))])]));(23,(yl [(ym [(1,(yi 400));(6,(yf (3#2)))])]));(21,(yl [(ym [(1,(yi 500));(2,(yi 4));(4,(yl []))]);(ym [(1,(yi 1000));(2,(yi 1));(4,(yl []));(3,(yi 2000))]);(ym [(1,(yi 2500));(2,(yi 4));(4,(yl []))])]))])) FSM 0%nat (Some (TSM [[L[35;84;73;84;76;69;58;31481;59]];[L[35;83;85;66;84;73;84;76;69;58;59]];[L[35;65;82;84;73;83;84;58;65;108;112;104;97;59]];[L[35;84;73;84;76;69;84;82;65;78;83;76;73;84;58;31481;59]];[L[35;83;85;66;84;73;84;76;69;84;82;65;78;83;76;73;84;58;59]];[L[35;65;82;84;73;83;84;84;82;65;78;83;76;73;84;58;65;108;112;104;97;59]];[L[35;71;69;78;82;69;58;59]];[L[35;67;82;69;68;73;84;58;67;97;109;101;108;108;105;97;32;102;101;97;116;32;78;97;110;97;104;105;114;97;59]];[L[35;66;65;78;78;69;82;58;59]];[L[35;66;65;67;75;71;82;79;85;78;68;58;59]];[L[35;76;89;82;73;67;83;80;65;84;72;58;59]];[L[35;67;68;84;73;84;76;69;58;59]];[L[35;77;85;83;73;67;58;97;117;100;105;111;46;109;112;51;59]];[L[35;79;70;70;83;69;84;58;45;48;46;52;59]];[L[35;66;80;77;83;58;48;46;48;61;49;50;48;46;48;59]];[L[35;83;84;79;80;83;58;59]];[L[35;83;65;77;80;76;69;83;84;65;82;84;58;49;50;46;51;52;53;59]];[L[35;83;65;77;80;76;69;76;69;78;71;84;72;58;48;46;48;49;59]];[L[35;68;73;83;80;76;65;89;66;80;77;58;59]];[L[35;83;69;76;69;67;84;65;66;76;69;58;89;69;83;59]];[L[35;66;71;67;72;65;78;71;69;83;58;59]];[L[35;70;71;67;72;65;78;71;69;83;58;59]];[L[47;47;45;45;45;45;45;45;100;97;110;99;101;45;115;105;110;103;108;101;91;49;32;69;97;115;121;93;45;45;45;45;45;45]];[L[35;78;79;84;69;83;58]];[L[32;32;32;32;32;100;97;110;99;101;45;115;105;110;103;108;101;58]];[L[32;32;32;32;32;65;108;112;104;97;58]];[L[32;32;32;32;32;69;97;115;121;58]];[L[32;32;32;32;32;49;58]];[L[32;32;32;32;32;48;46;48;44;48;46;48;44;48;46;48;44;48;46;48;44;48;46;48;58]];[L[48;48;48;49]];[L[50;48;48;48]];[L[48;48;48;48]];[L[51;48;48;48]];[L[44]];[L[59]];[]] [0;1;2;3;4;5;6;7;8;9;10;11;12;13;14;15;16;17;18;19;20;21;22;23;24;25;26;27;28;29;30;31;32;33;29;31;31;31;34;35;35])))%Z.
+Definition w_qua_sm_offset_current : c09case := (C09 true (1#1000000) 4 0 0%nat (SQua (ym [(101,(ys [97;117;100;105;111;46;109;112;51]));(111,(ys [75;101;121;115;52]));(112,(ys [31481]));(113,(ys [65;108;112;104;97]));(116,(ys [67;97;109;101;108;108;105;97;32;102;101;97;116;32;78;97;110;97;104;105;114;97]));(117,(ys [65;108;112;104;97]));(103,(ys []));(102,(yi 12345));(22,(yl [(ym [(1,(yi 500));(5,(yf (120#1)))])]));(23,(yl [(ym [(1,(yi 400));(6,(yf (3#2)))])]));(21,(yl [(ym [(1,(yi 500));(2,(yi 4));(4,(yl []))]);(ym [(1,(yi 1000));(2,(yi 1));(4,(yl []));(3,(yi 2000))]);(ym [(1,(yi 2500));(2,(yi 4));(4,(yl []))])]))])) FSM 0%nat (Some (TSM [[L[35;84;73;84;76;69;58;31481;59]];[L[35;83;85;66;84;73;84;76;69;58;59]];[L[35;65;82;84;73;83;84;58;65;108;112;104;97;59]];[L[35;84;73;84;76;69;84;82;65;78;83;76;73;84;58;31481;59]];[L[35;83;85;66;84;73;84;76;69;84;82;65;78;83;76;73;84;58;59]];[L[35;65;82;84;73;83;84;84;82;65;78;83;76;73;84;58;65;108;112;104;97;59]];[L[35;71;69;78;82;69;58;59]];[L[35;67;82;69;68;73;84;58;67;97;109;101;108;108;105;97;32;102;101;97;116;32;78;97;110;97;104;105;114;97;59]];[L[35;66;65;78;78;69;82;58;59]];[L[35;66;65;67;75;71;82;79;85;78;68;58;59]];[L[35;76;89;82;73;67;83;80;65;84;72;58;59]];[L[35;67;68;84;73;84;76;69;58;59]];[L[35;77;85;83;73;67;58;97;117;100;105;111;46;109;112;51;59]];[L[35;79;70;70;83;69;84;58;45;48;46;53;59]];[L[35;66;80;77;83;58;48;46;48;61;49;50;48;46;48;59]];[L[35;83;84;79;80;83;58;59]];[L[35;83;65;77;80;76;69;83;84;65;82;84;58;49;50;46;51;52;53;59]];[L[35;83;65;77;80;76;69;76;69;78;71;84;72;58;48;46;48;49;59]];[L[35;68;73;83;80;76;65;89;66;80;77;58;59]];[L[35;83;69;76;69;67;84;65;66;76;69;58;89;69;83;59]];[L[35;66;71;67;72;65;78;71;69;83;58;59]];[L[35;70;71;67;72;65;78;71;69;83;58;59]];[L[47;47;45;45;45;45;45;45;100;97;110;99;101;45;115;105;110;103;108;101;91;49;32;69;97;115;121;93;45;45;45;45;45;45]];[L[35;78;79;84;69;83;58]];[L[32;32;32;32;32;100;97;110;99;101;45;115;105;110;103;108;101;58]];[L[32;32;32;32;32;65;108;112;104;97;58]];[L[32;32;32;32;32;69;97;115;121;58]];[L[32;32;32;32;32;49;58]];[L[32;32;32;32;32;48;46;48;44;48;46;48;44;48;46;48;44;48;46;48;44;48;46;48;58]];[L[48;48;48;49]];[L[50;48;48;48]];[L[48;48;48;48]];[L[51;48;48;48]];[L[44]];[L[59]];[]] [0;1;2;3;4;5;6;7;8;9;10;11;12;13;14;15;16;17;18;19;20;21;22;23;24;25;26;27;28;29;30;31;32;33;29;31;31;31;34;35;35])))%Z.
+Definition w_sm_osu_cs_OLD : c09case := (C09 true (1#1000000) 7 0 0%nat (SSM [[L[35;67;82;69;68;73;84;58;109;97;112;112;101;114;95;48;49;59]];[L[35;66;65;67;75;71;82;79;85;78;68;58;73;110;115;97;110;101;32;55;75;59]];[L[35;79;70;70;83;69;84;58;48;59]];[L[35;66;80;77;83;58;48;46;48;48;48;61;49;50;48;46;48;48;48;59]];[L[35;83;84;79;80;83;58;59]];[L[35;83;65;77;80;76;69;83;84;65;82;84;58;49;50;46;53;59]];[L[35;83;69;76;69;67;84;65;66;76;69;58;89;69;83;59]];[L[47;47];R 45 15;L[32;107;98;55;45;115;105;110;103;108;101;32;45;32];R 45 16];[L[35;78;79;84;69;83;58]];[L[32;32;32;32;32;107;98;55;45;115;105;110;103;108;101;58]];[L[32;32;32;32;32;100;101;115;99;58]];[L[32;32;32;32;32;67;104;97;108;108;101;110;103;101;58]];[L[32;32;32;32;32;49;58]];[L[32;32;32;32;32;48;46;53;44;48;46;53;44;48;46;53;44;48;46;53;44;48;46;53;58]];[L[48;48;48;48;48;48;49]];[L[50;48;48;48;48;48;48]];[L[48;48;48;48;48;48;48]];[L[51;48;48;48;48;48;48]];[L[44]];[L[59]];[]] [0;1;2;3;4;5;6;7;8;9;10;11;12;13;14;15;16;17;18;14;16;16;16;19;20]) FOsu 0%nat (Some (TOsu [[L[111;115;117;32;102;105;108;101;32;102;111;114;109;97;116;32;118;49;52]];[];[L[91;71;101;110;101;114;97;108;93]];[L[65;117;100;105;111;70;105;108;101;110;97;109;101;58;32]];[L[65;117;100;105;111;76;101;97;100;73;110;58;32;48]];[L[80;114;101;118;105;101;119;84;105;109;101;58;32;49;50;53;48;48]];[L[67;111;117;110;116;100;111;119;110;58;32;48]];[L[83;97;109;112;108;101;83;101;116;58;32;78;111;110;101]];[L[83;116;97;99;107;76;101;110;105;101;110;99;121;58;32;48;46;55]];[L[77;111;100;101;58;32;51]];[L[76;101;116;116;101;114;98;111;120;73;110;66;114;101;97;107;115;58;32;48]];[L[83;112;101;99;105;97;108;83;116;121;108;101;58;32;48]];[L[87;105;100;101;115;99;114;101;101;110;83;116;111;114;121;98;111;97;114;100;58;32;49]];[L[91;69;100;105;116;111;114;93]];[L[68;105;115;116;97;110;99;101;83;112;97;99;105;110;103;58;32;52]];[L[66;101;97;116;68;105;118;105;115;111;114;58;32;52]];[L[71;114;105;100;83;105;122;101;58;32;56]];[L[84;105;109;101;108;105;110;101;90;111;111;109;58;32;48;46;51]];[L[91;77;101;116;97;100;97;116;97;93]];[L[84;105;116;108;101;58]];[L[84;105;116;108;101;85;110;105;99;111;100;101;58]];[L[65;114;116;105;115;116;58]];[L[65;114;116;105;115;116;85;110;105;99;111;100;101;58]];[L[67;114;101;97;116;111;114;58;109;97;112;112;101;114;95;48;49]];[L[86;101;114;115;105;111;110;58;67;104;97;108;108;101;110;103;101;32;49]];[L[83;111;117;114;99;101;58]];[L[84;97;103;115;58]];[L[66;101;97;116;109;97;112;73;68;58;48]];[L[66;101;97;116;109;97;112;83;101;116;73;68;58;45;49]];[L[91;68;105;102;102;105;99;117;108;116;121;93]];[L[72;80;68;114;97;105;110;82;97;116;101;58;53]];[L[67;105;114;99;108;101;83;105;122;101;58;52]];[L[79;118;101;114;97;108;108;68;105;102;102;105;99;117;108;116;121;58;53]];[L[65;112;112;114;111;97;99;104;82;97;116;101;58;53]];[L[83;108;105;100;101;114;77;117;108;116;105;112;108;105;101;114;58;49;46;52]];[L[83;108;105;100;101;114;84;105;99;107;82;97;116;101;58;49]];[L[91;69;118;101;110;116;115;93]];[L[47;47;66;97;99;107;103;114;111;117;110;100;32;97;110;100;32;86;105;100;101;111;32;101;118;101;110;116;115]];[L[48;44;48;44;34;73;110;115;97;110;101;32;55;75;34;44;48;44;48]];[L[47;47;66;114;101;97;107;32;80;101;114;105;111;100;115]];[L[47;47;83;116;111;114;121;98;111;97;114;100;32;76;97;121;101;114;32;48;32;40;66;97;99;107;103;114;111;117;110;100;41]];[L[47;47;83;116;111;114;121;98;111;97;114;100;32;76;97;121;101;114;32;49;32;40;70;97;105;108;41]];[L[47;47;83;116;111;114;121;98;111;97;114;100;32;76;97;121;101;114;32;50;32;40;80;97;115;115;41]];[L[47;47;83;116;111;114;121;98;111;97;114;100;32;76;97;121;101;114;32;51;32;40;70;111;114;101;103;114;111;117;110;100;41]];[L[47;47;83;116;111;114;121;98;111;97;114;100;32;76;97;121;101;114;32;52;32;40;79;118;101;114;108;97;121;41]];[L[47;47;83;116;111;114;121;98;111;97;114;100;32;83;111;117;110;100;32;83;97;109;112;108;101;115]];[L[91;84;105;109;105;110;103;80;111;105;110;116;115;93]];[L[45;48;46;48;44;53;48;48;46;48;44;52;44;48;44;48;44;48;44;49;44;48]];[L[91;72;105;116;79;98;106;101;99;116;115;93]];[L[56;51;50;44;49;57;50;44;48;44;49;44;48;44;48;58;48;58;48;58;48;58]];[L[54;52;44;49;57;50;44;53;48;48;44;49;50;56;44;48;44;49;53;48;48;58;48;58;48;58;48;58;48;58]];[L[56;51;50;44;49;57;50;44;50;48;48;48;44;49;44;48;44;48;58;48;58;48;58;48;58]]] [0;1;2;3;4;5;6;7;8;9;10;11;12;1;13;14;15;16;17;1;18;19;20;21;22;23;24;25;26;27;28;1;29;30;31;32;33;34;35;1;36;37;38;39;40;41;42;43;44;45;1;46;47;1;1;48;49;50;51])))%Z.
+Definition w_sm_osu_cs_current : c09case := (C09 true (1#1000000) 7 0 0%nat (SSM [[L[35;67;82;69;68;73;84;58;109;97;112;112;101;114;95;48;49;59]];[L[35;66;65;67;75;71;82;79;85;78;68;58;73;110;115;97;110;101;32;55;75;59]];[L[35;79;70;70;83;69;84;58;48;59]];[L[35;66;80;77;83;58;48;46;48;48;48;61;49;50;48;46;48;48;48;59]];[L[35;83;84;79;80;83;58;59]];[L[35;83;65;77;80;76;69;83;84;65;82;84;58;49;50;46;53;59]];[L[35;83;69;76;69;67;84;65;66;76;69;58;89;69;83;59]];[L[47;47];R 45 15;L[32;107;98;55;45;115;105;110;103;108;101;32;45;32];R 45 16];[L[35;78;79;84;69;83;58]];[L[32;32;32;32;32;107;98;55;45;115;105;110;103;108;101;58]];[L[32;32;32;32;32;100;101;115;99;58]];[L[32;32;32;32;32;67;104;97;108;108;101;110;103;101;58]];[L[32;32;32;32;32;49;58]];[L[32;32;32;32;32;48;46;53;44;48;46;53;44;48;46;53;44;48;46;53;44;48;46;53;58]];[L[48;48;48;48;48;48;49]];[L[50;48;48;48;48;48;48]];[L[48;48;48;48;48;48;48]];[L[51;48;48;48;48;48;48]];[L[44]];[L[59]];[]] [0;1;2;3;4;5;6;7;8;9;10;11;12;13;14;15;16;17;18;14;16;16;16;19;20]) FOsu 0%nat (Some (TOsu [[L[111;115;117;32;102;105;108;101;32;102;111;114;109;97;116;32;118;49;52]];[];[L[91;71;101;110;101;114;97;108;93]];[L[65;117;100;105;111;70;105;108;101;110;97;109;101;58;32]];[L[65;117;100;105;111;76;101;97;100;73;110;58;32;48]];[L[80;114;101;118;105;101;119;84;105;109;101;58;32;49;50;53;48;48]];[L[67;111;117;110;116;100;111;119;110;58;32;48]];[L[83;97;109;112;108;101;83;101;116;58;32;78;111;110;101]];[L[83;116;97;99;107;76;101;110;105;101;110;99;121;58;32;48;46;55]];[L[77;111;100;101;58;32;51]];[L[76;101;116;116;101;114;98;111;120;73;110;66;114;101;97;107;115;58;32;48]];[L[83;112;101;99;105;97;108;83;116;121;108;101;58;32;48]];[L[87;105;100;101;115;99;114;101;101;110;83;116;111;114;121;98;111;97;114;100;58;32;49]];[L[91;69;100;105;116;111;114;93]];[L[68;105;115;116;97;110;99;101;83;112;97;99;105;110;103;58;32;52]];[L[66;101;97;116;68;105;118;105;115;111;114;58;32;52]];[L[71;114;105;100;83;105;122;101;58;32;56]];[L[84;105;109;101;108;105;110;101;90;111;111;109;58;32;48;46;51]];[L[91;77;101;116;97;100;97;116;97;93]];[L[84;105;116;108;101;58]];[L[84;105;116;108;101;85;110;105;99;111;100;101;58]];[L[65;114;116;105;115;116;58]];[L[65;114;116;105;115;116;85;110;105;99;111;100;101;58]];[L[67;114;101;97;116;111;114;58;109;97;112;112;101;114;95;48;49]];[L[86;101;114;115;105;111;110;58;67;104;97;108;108;101;110;103;101;32;49]];[L[83;111;117;114;99;101;58]];[L[84;97;103;115;58]];[L[66;101;97;116;109;97;112;73;68;58;48]];[L[66;101;97;116;109;97;112;83;101;116;73;68;58;45;49]];[L[91;68;105;102;102;105;99;117;108;116;121;93]];[L[72;80;68;114;97;105;110;82;97;116;101;58;53]];[L[67;105;114;99;108;101;83;105;122;101;58;55]];[L[79;118;101;114;97;108;108;68;105;102;102;105;99;117;108;116;121;58;53]];[L[65;112;112;114;111;97;99;104;82;97;116;101;58;53]];[L[83;108;105;100;101;114;77;117;108;116;105;112;108;105;101;114;58;49;46;52]];[L[83;108;105;100;101;114;84;105;99;107;82;97;116;101;58;49]];[L[91;69;118;101;110;116;115;93]];[L[47;47;66;97;99;107;103;114;111;117;110;100;32;97;110;100;32;86;105;100;101;111;32;101;118;101;110;116;115]];[L[48;44;48;44;34;73;110;115;97;110;101;32;55;75;34;44;48;44;48]];[L[47;47;66;114;101;97;107;32;80;101;114;105;111;100;115]];[L[47;47;83;116;111;114;121;98;111;97;114;100;32;76;97;121;101;114;32;48;32;40;66;97;99;107;103;114;111;117;110;100;41]];[L[47;47;83;116;111;114;121;98;111;97;114;100;32;76;97;121;101;114;32;49;32;40;70;97;105;108;41]];[L[47;47;83;116;111;114;121;98;111;97;114;100;32;76;97;121;101;114;32;50;32;40;80;97;115;115;41]];[L[47;47;83;116;111;114;121;98;111;97;114;100;32;76;97;121;101;114;32;51;32;40;70;111;114;101;103;114;111;117;110;100;41]];[L[47;47;83;116;111;114;121;98;111;97;114;100;32;76;97;121;101;114;32;52;32;40;79;118;101;114;108;97;121;41]];[L[47;47;83;116;111;114;121;98;111;97;114;100;32;83;111;117;110;100;32;83;97;109;112;108;101;115]];[L[91;84;105;109;105;110;103;80;111;105;110;116;115;93]];[L[45;48;46;48;44;53;48;48;46;48;44;52;44;48;44;48;44;48;44;49;44;48]];[L[91;72;105;116;79;98;106;101;99;116;115;93]];[L[52;55;53;44;49;57;50;44;48;44;49;44;48;44;48;58;48;58;48;58;48;58]];[L[51;54;44;49;57;50;44;53;48;48;44;49;50;56;44;48;44;49;53;48;48;58;48;58;48;58;48;58;48;58]];[L[52;55;53;44;49;57;50;44;50;48;48;48;44;49;44;48;44;48;58;48;58;48;58;48;58]]] [0;1;2;3;4;5;6;7;8;9;10;11;12;1;13;14;15;16;17;1;18;19;20;21;22;23;24;25;26;27;28;1;29;30;31;32;33;34;35;1;36;37;38;39;40;41;42;43;44;45;1;46;47;1;1;48;49;50;51])))%Z.
 
-Lemma witness_osu_sm_offset :
-  wf_ok (check w_osu_sm_offset_pinned) = true /\ spec_ok (check w_osu_sm_offset_pinned) = false
-  /\ spec_ok (check w_osu_sm_offset_repaired) = true /\ corr_ok (check w_osu_sm_offset_repaired) = true.
+Lemma witness_OLD_osu_sm_offset_refuted : wf_ok (check w_osu_sm_offset_OLD) = true /\ spec_ok (check w_osu_sm_offset_OLD) = false.
 Proof. vm_compute. auto. Qed.
-Lemma witness_qua_sm_offset :
-  wf_ok (check w_qua_sm_offset_pinned) = true /\ spec_ok (check w_qua_sm_offset_pinned) = false
-  /\ spec_ok (check w_qua_sm_offset_repaired) = true /\ corr_ok (check w_qua_sm_offset_repaired) = true.
+Lemma witness_osu_sm_offset_current :
+  wf_ok (check w_osu_sm_offset_current) = true /\ spec_ok (check w_osu_sm_offset_current) = true /\ corr_ok (check w_osu_sm_offset_current) = true.
 Proof. vm_compute. auto. Qed.
-Lemma witness_sm_osu_circle_size :
-  wf_ok (check w_sm_osu_cs_pinned) = true /\ spec_ok (check w_sm_osu_cs_pinned) = false
-  /\ spec_ok (check w_sm_osu_cs_repaired) = true /\ corr_ok (check w_sm_osu_cs_repaired) = true.
+Lemma witness_OLD_qua_sm_offset_refuted : wf_ok (check w_qua_sm_offset_OLD) = true /\ spec_ok (check w_qua_sm_offset_OLD) = false.
+Proof. vm_compute. auto. Qed.
+Lemma witness_qua_sm_offset_current :
+  wf_ok (check w_qua_sm_offset_current) = true /\ spec_ok (check w_qua_sm_offset_current) = true /\ corr_ok (check w_qua_sm_offset_current) = true.
+Proof. vm_compute. auto. Qed.
+Lemma witness_OLD_sm_osu_cs_refuted : wf_ok (check w_sm_osu_cs_OLD) = true /\ spec_ok (check w_sm_osu_cs_OLD) = false.
+Proof. vm_compute. auto. Qed.
+Lemma witness_sm_osu_cs_current :
+  wf_ok (check w_sm_osu_cs_current) = true /\ spec_ok (check w_sm_osu_cs_current) = true /\ corr_ok (check w_sm_osu_cs_current) = true.
 Proof. vm_compute. auto. Qed.
